@@ -5,7 +5,7 @@
 From Coq Require Import List NArith Bool String.
 From Coq.Strings Require Import Byte.
 From GM Require Import Codec.Packet Topic.MatchSpec Broker.Backend Broker.BackendSpec
-  Broker.BackendProofsHist Broker.BackendC13.
+  Broker.BackendProofsHist Broker.BackendC13 Broker.BackendC13Proofs.
 Import ListNotations.
 Open Scope N_scope.
 
@@ -18,20 +18,27 @@ Theorem C13_handover_state : forall cap ops, holds_along handover_ok cap ops.
 Proof. exact handover_along. Qed.
 Print Assumptions C13_handover_state.
 
-(* full statement of the uniqueness invariant (Broker/BackendC13.v: unique_ok): kept as a
-   definition, evaluated on every observed state of the implementation by the check *)
-Definition C13_unique_state : Prop := C13_unique_state_statement.
+(* After every history without kill timeout (OSetupEnd true) and without backend Close (`benign`):
+   client id -> active connection is a partial function; every entry names the connection that holds
+   the session of that id; every session's active connection is not a terminated one, holds exactly
+   that session, and is the registered connection of its client id (unique_ok, Broker/BackendC13.v).
+   Hence two live connections never hold sessions for the same non-empty client id. *)
+Theorem C13_unique_state : forall cap ops,
+  forallb benign ops = true -> unique_ok (run_state (init cap) ops) = true.
+Proof. exact unique_state. Qed.
+Print Assumptions C13_unique_state.
 
-(* proved part: client id -> active connection is a partial function after every history *)
-Theorem C13_unique_state_partial : forall cap ops,
+(* the partial-function part needs no hypothesis on the history *)
+Theorem C13_active_partial_function : forall cap ops,
   nodup_keys (st_active (run_state (init cap) ops)) = true.
 Proof. exact active_partial_function. Qed.
-Print Assumptions C13_unique_state_partial.
+Print Assumptions C13_active_partial_function.
 
 Definition b (s : string) : bytes := list_byte_of_string s.
 
-(* why the statement excludes kill timeouts: Terminate removes the active entry by client id,
-   so the newcomer that timed out removes the OLD connection's entry *)
+(* why the two hypotheses: Terminate removes the active-clients entry by client id, so a newcomer
+   whose Setup failed (kill timeout, or ErrClosing after Close) removes the OLD connection's entry
+   when it terminates; a third connection with that id then finds no one to take over *)
 Theorem C13_unique_state_kill_timeout_refuted :
   exists ops, unique_ok (run_state (init 2) ops) = false.
 Proof.
@@ -39,6 +46,21 @@ Proof.
   vm_compute; reflexivity.
 Qed.
 Print Assumptions C13_unique_state_kill_timeout_refuted.
+
+Theorem C13_unique_state_close_refuted :
+  exists ops, unique_ok (run_state (init 2) ops) = false.
+Proof.
+  exists [OSetup 1 (b "x") true; OClose; OSetup 2 (b "x") true; OTerminate 2].
+  vm_compute; reflexivity.
+Qed.
+Print Assumptions C13_unique_state_close_refuted.
+
+(* the consequence: two temporary sessions for client id x, both with a connection that has not terminated *)
+Example C13_two_live_connections_after_kill_timeout :
+  let st := run_state (init 2)
+    [OSetup 1 (b "x") true; OSetup 2 (b "x") true; OSetupEnd true; OTerminate 2; OSetup 3 (b "x") true] in
+  map fst (st_temps st) = [1; 3] /\ st_term st = [2] /\ map snd (st_cid st) = [b "x"; b "x"; b "x"].
+Proof. vm_compute; repeat split; reflexivity. Qed.
 
 (* non-vacuity: a takeover that hands the session over, and the invariant on its states *)
 Example C13_nonvacuous :
